@@ -101,7 +101,8 @@ public:
 
 protected:
     double evalBasis(const int p[], const double x[]) const;
-    void buildInterpolationMatrix() const;
+    void buildInterpolationMatrix();
+    TasSparse::WaveletBasisMatrix makeInterpolationMatrix() const;
     void recomputeCoefficients();
     void solveTransposed(double w[]) const;
     double evalIntegral(const int p[]) const;
